@@ -23,6 +23,10 @@ Definition c10_flags : list flagdef :=
     ([100], KDuration, [49;115]);                           (* d     "1s" *)
     ([102], KFloat, []);                                    (* f     "" *)
     ([107], KBytes, []);                                    (* k     "" *)
+    ([100;114;121;45;114;117;110], KBool, [102;97;108;115;101]);          (* dry-run   "false"  ('-' inside the name) *)
+    ([108;111;103;46;108;101;118;101;108], KString, [105;110;102;111]);   (* log.level "info"   ('.' inside the name) *)
+    ([103;114;195;182;195;159;101], KInt, [55]);                          (* größe     "7"      (non-ASCII UTF-8 name) *)
+    ([255;122], KUint64, []);                                             (* \xffz     ""       (name with a non-UTF-8 byte) *)
     ([105;110;110;101;114], KString, [105;110]) ].          (* inner "in" (nested struct) *)
 
 Definition table_of (flags : list flagdef) : flagtable :=
@@ -35,8 +39,12 @@ Definition cls_nil : N := 0.
 Definition cls_bad_syntax : N := 1.
 Definition cls_not_defined : N := 2.
 Definition cls_needs_arg : N := 3.
-Definition cls_other_error : N := 4.   (* value error from Set, or the -config file cannot be read *)
+Definition cls_other_error : N := 4.   (* any other error: value error from Set, unreadable -config file, unrecognised wording *)
 Definition cls_panic : N := 5.
+
+(** the property only requires "an error": the verdict distinguishes nil / error / PANIC; the
+    wording (message prefix and carried text) refines DRIFT only *)
+Definition is_error (cls : N) : bool := (1 <=? cls) && (cls <=? 4).
 
 Definition class_of (e : err) : N :=
   match e with BadSyntax _ => cls_bad_syntax | NotDefined _ => cls_not_defined | NeedsArg _ => cls_needs_arg end.
@@ -87,13 +95,13 @@ Definition check_case (flags : list flagdef) (vec : list token)
   match arg_parse (table_of flags) vec with
   | Panic => {| v_class := false; v_args := false; v_help := false; v_fields := false; v_detail := false; v_lenient := false |}
   | Err e =>
-      {| v_class := cls =? class_of e; v_args := true; v_help := true; v_fields := true;
-         v_detail := bytes_eqb detail (detail_of e); v_lenient := false |}
+      {| v_class := is_error cls; v_args := true; v_help := true; v_fields := true;
+         v_detail := (cls =? class_of e) && bytes_eqb detail (detail_of e); v_lenient := false |}
   | Ok asg rest =>
       match final_value asg config_name with
       | Some (_ :: _) =>
-          (* a non-empty -config names a file; the harness never provides one: Parse must fail *)
-          {| v_class := cls =? cls_other_error; v_args := true; v_help := true; v_fields := true; v_detail := true; v_lenient := false |}
+          (* a non-empty -config names a file: what happens then is outside the grammar property (C09); lenient *)
+          {| v_class := negb (cls =? cls_panic); v_args := true; v_help := true; v_fields := true; v_detail := true; v_lenient := true |}
       | _ =>
           let rs := map (fun f => match final_value asg (fst (fst f)) with
                                   | Some t => set_known (snd (fst f)) t
@@ -101,8 +109,8 @@ Definition check_case (flags : list flagdef) (vec : list token)
                                   end) flags in
           let lenient := existsb is_unknown rs in
           if existsb is_err rs then
-            {| v_class := cls =? cls_other_error; v_args := true; v_help := true; v_fields := true; v_detail := true; v_lenient := lenient |}
-          else if (cls =? cls_other_error) && lenient then
+            {| v_class := is_error cls; v_args := true; v_help := true; v_fields := true; v_detail := cls =? cls_other_error; v_lenient := lenient |}
+          else if is_error cls && lenient then
             {| v_class := true; v_args := true; v_help := true; v_fields := true; v_detail := true; v_lenient := true |}
           else
             {| v_class := cls =? cls_nil;
